@@ -46,7 +46,7 @@ fn generate(seed: u64, tier: Tier) -> Value {
     let nsteps = r.range(12, if tier == Tier::Quick { 32 } else { 48 });
     let mut steps = Vec::new();
     for i in 0..nsteps {
-        let kind = *r.pick(&["dht_req", "dht_req", "dht_req", "dht_resp", "random", "rr", "app", "oversize", "direct", "dht_req"]);
+        let kind = *r.pick(&["dht_req", "dht_req", "dht_req", "dht_resp", "random", "rr", "app", "oversize", "direct", "dht_req", "rr_reply"]);
         let in_window = r.chance(3, 5);
         let off = if in_window { *r.pick(&[-300i64, -299, -1, 0, 0, 0, 29, 30]) } else { *r.pick(&OFFS) };
         steps.push(json!({"i": i, "kind": kind, "off": off, "via": r.below(2), "claimed": *r.pick(&["victim", "peer", "random", "own"]),
@@ -259,6 +259,40 @@ fn execute(sc: &Value) -> RunReport {
                 direct_step(&mut ctx, &st, &mut sr, victim, &dht, &mut model, i).await;
                 continue;
             }
+            if kind == "rr_reply" {
+                // The victim has a request in flight to the hostile peer, which answers on its own connection with
+                // the right identifier - and a timestamp of its choosing. A reply frame is a framed message like
+                // any other: outside the window it must not be surfaced to the caller.
+                let h = (st["via"].as_u64().unwrap_or(0) % 2) as usize;
+                let (hidx, htid) = (hostile[h].0, hostile[h].1.clone());
+                for hh in hostile.iter_mut() { while hh.2.try_recv().is_ok() {} }
+                let tr = victim.transport.clone();
+                let to = htid.clone();
+                let req = tokio::spawn(async move { tr.send_request(&to, "c05", format!("c05-rr-{i}").into_bytes(), Duration::from_millis(800)).await });
+                let mut got = None;
+                for _ in 0..200 {
+                    tokio::time::sleep(Duration::from_millis(1)).await;
+                    if let Ok((_from, bytes)) = hostile[h].2.try_recv() { got = Some(bytes); break; }
+                }
+                let parsed = got.as_ref().and_then(|b| verif_hooks::decode_wire(b)).and_then(|(proto, data, _f, _t)| verif_hooks::decode_envelope(&data).map(|e| (proto, e.0)));
+                let Some((proto, mid)) = parsed else { ctx.probe("rr_reply_request_not_seen"); req.abort(); continue };
+                let off = st["off"].as_i64().unwrap_or(0);
+                let ts: u64 = if off == i64::MIN { 0 } else if off == i64::MAX { u64::MAX } else { (wall as i64 + off).max(0) as u64 };
+                let reply = verif_hooks::encode_wire(&proto, verif_hooks::encode_envelope(&mid, true, format!("answer-{i}").into_bytes()), &htid, ts);
+                net.inject(hidx, victim.idx, reply, 0);
+                let res = req.await;
+                let inside = ts >= wall.saturating_sub(300) && ts <= wall + 30;
+                ev!("step {i} rr_reply off={off} inside={inside} -> {}", match &res { Ok(Ok(_)) => "delivered", Ok(Err(_)) => "not delivered", Err(_) => "task failed" });
+                match res {
+                    Ok(Ok(_)) if !inside => { ctx.violate("C05.window.reply_outside_window_surfaced", if ts < wall { "stale" } else { "future" }, format!("step {i}: a reply frame stamped {off} s from the receiver's clock completed the pending request (window is -300 s .. +30 s)")); }
+                    Ok(Ok(_)) => ctx.probe("rr_reply_inside_window_delivered"),
+                    _ if !inside => { window_rejected += 1; ctx.probe("rr_reply_outside_window_rejected"); }
+                    _ => ctx.probe("rr_reply_inside_window_not_delivered"),
+                }
+                for p in take_panics() { ctx.violate("C05.panic.in_message_handling", "rr_reply", format!("step {i}: {}", p.chars().take(300).collect::<String>())); }
+                while events.try_recv().is_ok() {}
+                continue;
+            }
             let (hidx, htid) = { let h = &hostile[(st["via"].as_u64().unwrap_or(0) % 2) as usize]; (h.0, h.1.clone()) };
             let claimed = match st["claimed"].as_str().unwrap_or("own") {
                 "victim" => victim.tid.clone(),
@@ -467,7 +501,7 @@ fn execute(sc: &Value) -> RunReport {
         if oversized > 0 { ctx.probe("dht_oversized"); }
         if jumps > 0 { ctx.probe("clock_jump"); }
         if routing.len() > 20 { ctx.probe("routing_over_20"); }
-        ev!("alloc: max single block beyond 2x frame = {max_big}, max peak growth beyond 8x frame = {max_peak}");
+        let _ = (max_big, max_peak); // measured figures are judged per step, not traced (see C07)
         if surfaced > 0 && window_rejected > 0 && oversized > 0 && jumps > 0 { ctx.nontrivial = true; }
         ctx.sim_ms += net.now_ms();
         for (k, v) in net.fired() { for _ in 0..v { ctx.fault(&k); } }
@@ -476,7 +510,7 @@ fn execute(sc: &Value) -> RunReport {
     });
     drop(rt);
     verif_hooks::clear_wall();
-    for k in ["surfaced", "window_rejected", "dht_oversized", "clock_jump", "routing_over_20", "find_node_reply_full", "direct_record_ok", "direct_record_over_512_refused", "direct_core_find_node"] { ctx.probes.entry(k.to_string()).or_insert(0); }
+    for k in ["rr_reply_inside_window_delivered", "rr_reply_outside_window_rejected", "surfaced", "window_rejected", "dht_oversized", "clock_jump", "routing_over_20", "find_node_reply_full", "direct_record_ok", "direct_record_over_512_refused", "direct_core_find_node"] { ctx.probes.entry(k.to_string()).or_insert(0); }
     ctx.finish()
 }
 
